@@ -47,6 +47,45 @@ CHECKS['C19'] = ('model_checking', 'bytestream',
     'reference; corrupt input gives ProtocolError, never different content.',
     'zlib is a byte-serial transducer; payload/coding alphabet in vt/checks/c19.py.', '5/C19')
 
+CHECKS['C04'] = ('model_checking', 'bytestream',
+    'exhaustive segmentation x exchange-sequence enumeration on the real HTTP client with the '
+    'real WARCRecorder; blocks compared byte-for-byte with the scripted server log',
+    'For every response of the header-style x framing x body alphabet, every cut set (<=1 quick, '
+    '<=2 thorough) and single-byte delivery, and for all 2-sequences (reduced 3-sequences in '
+    'thorough) on one persistent connection, the WARC file is parsed by an independent strict '
+    'reader: exactly one request and one response/revisit record per completed exchange, '
+    'response concurrent to request, request block == bytes the server received, response block '
+    '== bytes the server sent (cut at Content-Length on overrun).',
+    'strict reader vt/refs/warcread.py; fakenet transport.', '5/C04')
+CHECKS['C05'] = ('model_checking', 'enum',
+    'configuration x session-history enumeration of the real WARCRecorder against a strict '
+    'WARC/1.0 + gzip-member reader',
+    'All 2^8 recorder configurations (compression, digests, CDX, size rollover at two sizes, '
+    'appending onto pre-existing files, log record, extra warcinfo fields, dedup table) x all '
+    'session sequences of length <=2 over 8 HTTP session kinds (+ reduced length 3) in thorough; '
+    'a pairwise-covering configuration set in quick. Every file must parse as complete records, '
+    'one gzip member each, single-line fields, correct Content-Length, CRLF CRLF, unique ids, '
+    'warcinfo back-pointers, block digest, and payload digest over the bytes after the wire '
+    'header block; revisit blocks end at the header end.',
+    'strict reader is the specification; FTP sessions not yet in this enumeration.', '5/C05')
+CHECKS['C06'] = ('fault_enumeration', 'faultfs',
+    'exhaustive I/O-error injection and kill-point (torn write) enumeration over the raw '
+    'operation log of one append',
+    'Every raw file operation of WARCRecorder.write_record (journal create/write/close, archive '
+    'open/each raw write/close, journal unlink) is failed with OSError (and short write + '
+    'OSError) and used as a kill point with every torn prefix; I/O error => archive bytes '
+    'unchanged and no journal; kill => archive valid or journal names the pre-append length and '
+    'truncation restores validity, and a new recorder refuses to start.',
+    'process-kill model (no power-loss reordering); _pyio buffering == C io buffering.', '5/C06')
+CHECKS['C07'] = ('model_checking', 'enum',
+    'configuration x session-history enumeration with CDX on; every CDX line resolved against '
+    'byte slices of the named archive by a strict reader',
+    'Same enumeration as C05 with CDX forced on (incl. rollover into numbered files and appending '
+    'to existing WARC+CDX): one line per response record, none for others; file[V:V+S] is exactly '
+    'that record / gzip member; URL, record id, checksum equal the record fields; status and MIME '
+    'type equal those parsed from the archived block by the RFC 7230 reference.',
+    'strict reader + rfc7230 reference.', '5/C07')
+
 NOT_YET = {}
 
 
